@@ -477,3 +477,33 @@ def prog_records(ir):
             parts += [1] + [o(x) for x in body]
         lines.append(' '.join(map(str, parts)))
     return lines
+
+
+# ---- IR -> Coq term of type Engine.Prog.prog (kernel instances) ----
+def coq_prog(ir):
+    L = lambda xs: '[' + '; '.join(xs) + ']'
+    pid = lambda s: '%d%%positive' % (s + 1)
+    osid = lambda s: 'None' if s is None else 'Some %s' % pid(s)
+    sts = []
+    for s in sorted(ir['states']):
+        st = ir['states'][s]
+        loop = 'None' if st['loop'] is None else 'Some (%d, %d)' % st['loop']
+        su = st['setup']
+        setup = 'PNoSetup' if su is None else ('PEarly %d' % su[1] if su[0] == 'early' else 'PAccept %d' % su[1])
+        kind, body = st['fork']
+        if kind == 'chain':
+            items = []
+            for cond, t in body:
+                if cond[0] == 'lut':
+                    c = 'PLut %d %d' % (cond[1], cond[2])
+                else:
+                    c = 'PCmp ' + L('{| c_lo := %d; c_hi := %d; c_ex := %s |}' % (lo, hi, L(map(str, ex))) for lo, hi, ex in cond[1])
+                items.append('(%s, %s)' % (c, pid(t)))
+            fork = 'PChain ' + L(items)
+        else:
+            fork = 'PTable ' + L('(%s)' % osid(x) if x is not None else 'None' for x in body)
+        e = st['eoi']
+        sts.append('(%s, {| p_loop := %s; p_setup := %s; p_fork := %s; p_prefix := %s; p_roottest := %s; p_eoi := %s |})' %
+                   (pid(s), loop, setup, fork, 'true' if e['prefix'] else 'false', 'true' if e['root'] else 'false', osid(e['target'])))
+    luts = L(L(map(str, row)) for row in ir['luts'])
+    return 'mk_prog %s %s %s %s' % (luts, L(sts), pid(ir['root']), pid(ir['restart']))
